@@ -8,6 +8,11 @@ def prepare_family(fam, summ, outdir):
     if emit == "ledger":
         from ledger_cases import traces_to_shards
         summ["shards"] = traces_to_shards(outdir, summ)
+    elif emit == "genesis":
+        from genesis_cases import traces_to_genesis_shards
+        shards, info = traces_to_genesis_shards(outdir, summ)
+        summ["shards"] = shards
+        summ.setdefault("extra", {})["genesis_cases"] = info
     elif emit == "data":
         from data_cases import traces_to_shards
         summ["shards"] = traces_to_shards(outdir, summ)
